@@ -190,6 +190,10 @@ def check_index_contracts(res: Result, repo, prop="C20"):
 def check_resolver_shape(res: Result, repo, prop="C20"):
     """reading_by_candle: dotted -> nested field; else candle attribute if not None; else exact key in indicators, then sub_indicators"""
     rule = "R-CONTRACT"
+    from ..contracts import sem_gate
+
+    if sem_gate(prop, res, repo, ("reading_by_candle",), rule=rule):
+        return  # decided by evaluation on a model candle (top-level / helper / dotted / attribute names, stored None / 0.0 / False / dicts)
     rbc = repo.func("hexital.utils.candles", "reading_by_candle")
     mod = rbc.module  # the resolver's home (it may have been moved and re-exported)
     resolvers = [rbc] + ([mod.functions["_nested_indicator"]] if "_nested_indicator" in mod.functions else [])
@@ -476,7 +480,11 @@ def run(repo, tier) -> Result:
         n_rets = len([n for n in ast.walk(rc.node) if isinstance(n, ast.Return)])
         shape = pred_ok and counted and n_rets == 1
         tests = tests or ([body] if pred_ok else [])
-    if tests and revs and shape:
+    from ..contracts import sem_gate as _gate
+
+    if _gate("C20", res, repo, ("reading_count",), rule="R-CONTRACT"):
+        pass
+    elif tests and revs and shape:
         res.ok("R-CONTRACT", {"helper": "reading_count", "why": "counts trailing candles until the first `is None`"}, nontrivial="reading_count")
     else:
         res.fail("R-CONTRACT", finding("C20", "R-CONTRACT", rc, rc.node, "reading_count no longer counts trailing candles up to the first missing reading", construct="reading_count: reversed scan, is None"))
@@ -493,8 +501,12 @@ def run(repo, tier) -> Result:
     from ..core import Result as _R
 
     tmp = _R("C20", res.tier)
-    check_wrappers("C20", tmp, repo)
-    ok = not any(f.function.endswith("prev_reading") for f in tmp.findings)
+    from ..helpersem import verdict as _verdict
+
+    _v = _verdict(repo, "Indicator.prev_reading")
+    if _v[0] == "undecided":
+        check_wrappers("C20", tmp, repo)
+    ok = _v[0] == "ok" or (_v[0] == "undecided" and not any(f.function.endswith("prev_reading") for f in tmp.findings))
     (res.ok("R-CONTRACT", {"helper": "Indicator.prev_reading", "why": "None at index 0, else index - 1"}) if ok else res.fail("R-CONTRACT", finding("C20", "R-CONTRACT", ip, ip.node, "Indicator.prev_reading must return None at index 0 and read _active_index - 1 otherwise", construct="Indicator.prev_reading: guard/offset")))
     check_index_contracts(res, repo)
     check_resolver_shape(res, repo)
